@@ -107,10 +107,12 @@ CHECKS = {
           'preserved, trigonometric constants, Nxxtop[0] = Fc/(2 pi r2 cos(alpha)).  ConeCyl.calc_fext is executed symbolically with the real fg of the model\'s commons '
           'module for 17 models x {pdC} x {pdT}: every entry equals the virtual work of point forces, harmonic axial line load, pressure and torque on the basis '
           'functions that cfuvw of the same module reports, incremental parts times the load factor, prescribed shortening/twist as -ck*Kuk[:,k]; the amplitude layout of '
-          'cfuvw/fg equals modelDB.  calc_full_c is executed symbolically for all admissible sets of prescribed amplitudes.'),
+          'cfuvw/fg equals modelDB.  calc_full_c is executed symbolically for all admissible sets of prescribed amplitudes.  exclude_dofs_matrix is executed symbolically '
+          'on a COO matrix of symbolic size seen through one generic stored entry (all four admissible sets): kuu == K[free, free] entry by entry (position by z3), '
+          'kuk == K[free, 0:3].'),
     design_ref='DESIGN.md section 10.6 (C18)',
     note=('calc_fext and calc_full_c: symbolic in every load, position, geometry and factor but for CONCRETE series orders (2,2,2) / vector lengths 12, 21 -- bounded in '
-          'the orders, listed as such in the evidence; exclude_dofs_matrix: bounded run-time stand-in (random COO matrices); ConeCyl.static itself rests on C04/C09 '
+          'the orders, listed as such in the evidence; exclude_dofs_matrix: proved under the numpy/scipy semantics listed as trusted (element-wise ops, where/take selection, toarray, delete), plus a bounded run-time stand-in on random COO matrices; ConeCyl.static itself rests on C04/C09 '
           '(Analysis.static, solve); the coupling of the always-prescribed third amplitude with the j2 = 1 terms is absent from the kernels (k0uk[:,2] == 0), so no '
           'right-hand-side term exists for a non-zero load-asymmetry amplitude: recorded as an observation in DESIGN, not decided here'),
     technique='contracts + symbolic execution of the Python ast and of the extracted .pyx field functions; exact normal form; symbolic integration by parts; bounded stand-ins labelled'),
